@@ -208,6 +208,8 @@ func (c *FnCtx) ghostIntrinsic(fr *Frame, st *State, fn *ssa.Function, args []*T
 			ts.Eq(c.hget(st, mh.dom, mh.sdom, args[1]), c.hget(ent, mh.dom, mh.sdom, args[1])),
 			ts.Eq(c.hget(st, mh.sel, mh.ssel, args[1]), c.hget(ent, mh.sel, mh.ssel, args[1])),
 			ts.Eq(c.hget(st, mh.ln, mh.sln, args[1]), c.hget(ent, mh.ln, mh.sln, args[1])))}, true
+	case "verifXmlWellFormed": // xml.Decoder.Token accepts the whole text (reaches io.EOF without an error)
+		return []*Term{ts.UF("xmlWellFormed", SBool, args[0])}, true
 	case "verifFile": // content of the file at a path in the ghost file system
 		return []*Term{c.gget(st, "G:fs", ts.UF("fsid", SInt, args[0]))}, true
 	case "verifIsNaN":
@@ -329,17 +331,20 @@ func (c *FnCtx) model(fr *Frame, st *State, x *ssa.Call, name string, args []*Te
 		return []*Term{r}
 	// ---------------- bytes ----------------
 	case "bytes.Replace":
-		use("bytes.Replace(s,old,new,-1) = str.replace_all for non-empty old")
+		use("bytes.Replace(s,old,new,n) = str.replace_all for non-empty old when n < 0 or n >= bytes.Count(s,old)")
 		r := ts.UF("bytes.Replace", SString, args[0], args[1], args[2], args[3])
-		c.addFactT(st, r, ts.Implies(ts.And(ts.Not(ts.Eq(args[1], ts.Str(""))), ts.Lt(args[3], ts.Int(0))), ts.Eq(r, ts.App("str.replace_all", SString, args[0], args[1], args[2]))))
+		all := ts.Or(ts.Lt(args[3], ts.Int(0)), ts.Ge(args[3], ts.UF("bytes.Count", SInt, args[0], args[1])))
+		c.addFactT(st, r, ts.Implies(ts.And(ts.Not(ts.Eq(args[1], ts.Str(""))), all), ts.Eq(r, ts.App("str.replace_all", SString, args[0], args[1], args[2]))))
 		return []*Term{r}
 	case "bytes.TrimSuffix", "strings.TrimSuffix":
 		use(name + ": removes the suffix when present")
 		has := ts.App("str.suffixof", SBool, args[1], args[0])
 		return []*Term{ts.Ite(has, ts.Extract(args[0], ts.Int(0), ts.Sub(ts.Len(args[0]), ts.Len(args[1]))), args[0])}
 	case "bytes.Count":
+		use("bytes.Count(s, sep) for non-empty sep: >= 0, and 0 exactly when sep does not occur in s")
 		r := ts.UF("bytes.Count", SInt, args[0], args[1])
 		c.addFact(st, ts.Ge(r, ts.Int(0)))
+		c.addFactT(st, r, ts.Implies(ts.Not(ts.Eq(args[1], ts.Str(""))), ts.Eq(ts.Eq(r, ts.Int(0)), ts.Not(ts.App("str.contains", SBool, args[0], args[1])))))
 		return []*Term{r}
 	case "bytes.NewBuffer", "bytes.NewBufferString":
 		use("bytes.Buffer: abstract content string; NewBuffer(b) starts with content b")
@@ -642,6 +647,13 @@ func (c *FnCtx) model(fr *Frame, st *State, x *ssa.Call, name string, args []*Te
 		c.gset(st, "G:xdpos", o, ts.Int(0))
 		c.gset(st, "G:xddepth", o, ts.Int(0))
 		c.addFact(st, ts.Eq(ts.UF("xdsrc", SInt, o), c.ioID(args[0])))
+		{
+			// the text this decoder will tokenize: what its reader has not delivered yet
+			id := c.ioID(args[0])
+			data := ts.UF("rddata", SString, id)
+			pos := c.gget(st, "G:rdpos", id)
+			c.addFact(st, ts.Eq(ts.UF("xdata", SString, o), ts.Extract(data, pos, ts.Sub(ts.Len(data), pos))))
+		}
 		return []*Term{o}
 	case "(*encoding/xml.Decoder).Token", "(*encoding/xml.Decoder).RawToken":
 		raw := strings.HasSuffix(name, "RawToken")
@@ -915,6 +927,9 @@ func (c *FnCtx) tokenModel(st *State, dec *Term, raw bool, cc *ssa.CallCommon) [
 		isStart, isEnd := is[0], is[1]
 		c.addFact(st, ts.Implies(ts.And(ok, isEnd), ts.Ge(depth, ts.Int(1))))
 		c.addFact(st, ts.Implies(ts.Eq(err, eof), ts.Eq(depth, ts.Int(0))))
+		// definition of well-formedness used by the validity clauses (C05): Token reports io.EOF only after it has
+		// accepted the decoder's entire input (positions only advance on accepted tokens)
+		c.addFact(st, ts.Implies(ts.Eq(err, eof), ts.UF("xmlWellFormed", SBool, ts.UF("xdata", SString, dec))))
 		nd := ts.Ite(ts.And(ok, isStart), ts.Add(depth, ts.Int(1)), ts.Ite(ts.And(ok, isEnd), ts.Sub(depth, ts.Int(1)), depth))
 		c.gset(st, "G:xddepth", dec, nd)
 	}
